@@ -417,6 +417,43 @@ class H4(Case):
         return obs
 
 
+class H9(Case):
+    """the process tensor keeps its OWN copy of every tensor it is given: the caller re-using / overwriting the arrays it
+    passed to set_mpo_tensor / set_cap_tensor afterwards does not change what is contracted"""
+    functions = ("SimpleProcessTensor.set_mpo_tensor", "SimpleProcessTensor.set_cap_tensor", "SimpleProcessTensor.get_mpo_tensor",
+                 "system_dynamics.compute_dynamics")
+    env = {"noconj": True}
+
+    def __init__(self, bond=1):
+        self.bond = bond
+        self.id = "H9/caller_buffers_reused_b%d" % bond
+        self.bounds = {"d": 2, "N": 2, "bond": bond, "rank": 4, "dtype": "complex (so that no dtype conversion forces a copy)"}
+        self.timeout_s = 300
+
+    def run(self, inp):
+        d, N, b = 2, 2, self.bond
+        D = d * d
+        pt = ptm.SimpleProcessTensor(hilbert_space_dimension=d, dt=0.1)
+        Ms = [inp.arr("M0", (1, b, D, D), cplx=True), inp.arr("M1", (b, 1, D, D), cplx=True)]
+        caps = [inp.arr("c0", (1,), cplx=True), inp.arr("c1", (b,), cplx=True), inp.arr("c2", (1,), cplx=True)]
+        keepM, keepc = [m.copy() for m in Ms], [c.copy() for c in caps]
+        for k in range(N):
+            pt.set_mpo_tensor(k, Ms[k])
+        for k in range(N + 1):
+            pt.set_cap_tensor(k, caps[k])
+        # the caller now re-uses its buffers for something else
+        junk = inp.cplx("junk")
+        for a in Ms + caps:
+            a[...] = a * junk + junk
+        P1 = [lib.gen_prop(inp, "p%d" % k, d) for k in range(N)]
+        P2 = [lib.gen_prop(inp, "q%d" % k, d) for k in range(N)]
+        rho0 = inp.arr("r", (d, d))
+        st = lib.dynamics_states(sd.compute_dynamics(lib.FakeSystem(d, P1, P2), initial_state=rho0, process_tensor=pt,
+                                                     progress_type="silent"))
+        return [Ob.eq("step %d == evolution with the tensors as handed over" % n, st[n],
+                      lib.oracle_pt_dynamics(rho0, [(keepM, keepc)], P1, P2, n).reshape(d, d)) for n in range(N + 1)]
+
+
 def cases(tier):
     cs = []
     # quick
@@ -426,7 +463,7 @@ def cases(tier):
            H1(2, 2, 2, 4, False, "stack"), H1(1, 3, 2, 3, True, "ends", num_steps=1),
            H1(1, 2, 2, 4, "out", "none"), H1(1, 2, 2, 3, "in", "none"), H1(2, 2, 1, 4, "out", "prepost"),
            H1(1, 2, 2, 4, False, "none", layout="F"), H1(0, 2, 1, 4, False, "prepost", layout="F"), H1(1, 2, 1, 3, True, "ends", layout="S")]
-    cs += [H2(2, 2, 2), H4(2), H4(3), H5(3), H5(4), H6(4, False), H6(4, "in"), H6(4, "out"), H6(4, True), H6(3, False, N=3), H7(3), H7(4), H8(2, 1), H8(2, 2, trivial=True)]
+    cs += [H2(2, 2, 2), H4(2), H4(3), H5(3), H5(4), H6(4, False), H6(4, "in"), H6(4, "out"), H6(4, True), H6(3, False, N=3), H7(3), H7(4), H8(2, 1), H8(2, 2, trivial=True), H9(1), H9(2)]
     cs += [H3(2, None), H3(3, 1)]
     if tier == "thorough":
         # (two rank-4 environments with bond 2 at N=3 do not finish within the per-case wall-clock limit:
